@@ -68,11 +68,11 @@ theorem route_none_iff (l : Links) (fs : Fs) (j : Job) :
       · simp [route, hs, ho, he]
 
 theorem jobOpsL_of_route_none {l : Links} {fs : Fs} {j : Job} (h : route l fs j = none) :
-    jobOpsL l fs j = inplaceOps j.src j.tmp j.body := by
+    jobOpsL l fs j = inplaceOps j.early j.src j.target j.tmp j.body := by
   simp [jobOpsL, h]
 
 theorem jobOpsL_of_route_some {l : Links} {fs : Fs} {j : Job} {o : String} (h : route l fs j = some o) :
-    jobOpsL l fs j = directOps j.src o j.body (l.peers o) := by
+    jobOpsL l fs j = directOps j.early j.src o j.body (l.peers o) := by
   simp [jobOpsL, h]
 
 /-- With no link table a name is its own inode: the older model. -/
@@ -105,6 +105,7 @@ def Op.directTo (o : String) (ps : List String) : Op → Bool
   | .fmt _ => true
   | .write _ _ => true
   | .close => true
+  | .closeIn => true
   | .openWrite o' ps' => decide (o' = o ∧ ps' = ps)
   | .mkTemp _ => false
   | .replace _ => false
@@ -120,6 +121,7 @@ theorem apply_frame {o p : String} {ps : List String} {op : Op} {st st' : St}
   | sameFile => simp only [apply, Option.some.injEq] at ha; subst ha; exact ⟨hi, rfl⟩
   | fmt _ => simp only [apply, Option.some.injEq] at ha; subst ha; exact ⟨hi, rfl⟩
   | close => simp only [apply, Option.some.injEq] at ha; subst ha; exact ⟨hi, rfl⟩
+  | closeIn => simp only [apply, Option.some.injEq] at ha; subst ha; exact ⟨hi, rfl⟩
   | openRead s =>
     simp only [apply] at ha
     split at ha
@@ -169,6 +171,13 @@ theorem exec_direct_frame (cfg : Cfg) (plan : Plan) {o p : String} {ps : List St
     cases hp : plan i with
     | kill => simp [hp] at hm
     | raise => simp only [hp] at hm; exact hhandler ev hm
+    | raiseBase =>
+      simp only [hp] at hm
+      cases hb : cfg.cleanupBase with
+      | true => simp only [hb, if_true] at hm; exact hhandler ev hm
+      | false =>
+        simp only [hb, Bool.false_eq_true, if_false, List.mem_singleton] at hm
+        subst hm; rfl
     | none =>
       simp only [hp] at hm
       cases ha : apply op st with
@@ -180,18 +189,34 @@ theorem exec_direct_frame (cfg : Cfg) (plan : Plan) {o p : String} {ps : List St
         · exact hf.2
         · rw [ih hrest (i + 1) st' hf.1 ev hm, hf.2]
 
-theorem directOps_directTo (src o : String) (body : List Op) (ps : List String)
-    (hb : ∀ op ∈ body, op.isBody = true) : ∀ op ∈ directOps src o body ps, Op.directTo o ps op = true := by
+theorem directOps_directTo (early : Bool) (src o : String) (body : List Op) (ps : List String)
+    (hb : ∀ op ∈ body, op.isBody = true) : ∀ op ∈ directOps early src o body ps, Op.directTo o ps op = true := by
   intro op hm
-  simp only [directOps, List.cons_append, List.nil_append, List.mem_cons, List.mem_append,
-    List.mem_nil_iff, or_false] at hm
-  rcases hm with rfl | rfl | rfl | hm | rfl
-  · rfl
-  · rfl
-  · simp [Op.directTo]
-  · have := hb op hm
+  have hbody : ∀ op ∈ body, Op.directTo o ps op = true := by
+    intro op hm
+    have := hb op hm
     cases op <;> simp_all [Op.isBody, Op.directTo]
-  · rfl
+  cases early with
+  | true =>
+    simp only [directOps, if_true, List.cons_append, List.nil_append, List.mem_cons, List.mem_append,
+      List.mem_nil_iff, or_false] at hm
+    rcases hm with rfl | rfl | rfl | rfl | hm | rfl
+    · rfl
+    · rfl
+    · rfl
+    · simp [Op.directTo]
+    · exact hbody op hm
+    · rfl
+  | false =>
+    simp only [directOps, Bool.false_eq_true, if_false, List.cons_append, List.nil_append, List.mem_cons,
+      List.mem_append, List.mem_nil_iff, or_false] at hm
+    rcases hm with rfl | rfl | rfl | hm | rfl | rfl
+    · rfl
+    · rfl
+    · simp [Op.directTo]
+    · exact hbody op hm
+    · rfl
+    · rfl
 
 end Pypyr.FsRewrite
 
@@ -208,18 +233,19 @@ def Job.noOut (j : Job) : Job := { j with out := none }
 def PathAlias (l : Links) (j : Job) : Prop :=
   j.out = none ∨ ∃ o, j.out = some o ∧ l.resolve o = j.src ∧ l.resolve j.src = j.src ∧ j.src ≠ ""
 
-theorem linksAfter_resolve (l : Links) (fs : Fs) (j : Job) (q : String) :
+theorem linksAfter_resolve (l : Links) (fs : Fs) (j : Job) (hd : j.dst = none) (q : String) :
     (linksAfter l fs j).resolve q = l.resolve q := by
   unfold linksAfter
+  rw [hd]
   split
   · rfl
   · split <;> rfl
 
-theorem PathAlias.after {l : Links} {j : Job} (h : PathAlias l j) (fs : Fs) (j' : Job) :
+theorem PathAlias.after {l : Links} {j : Job} (h : PathAlias l j) (fs : Fs) (j' : Job) (hd : j'.dst = none) :
     PathAlias (linksAfter l fs j') j := by
   rcases h with h | ⟨o, ho, h1, h2, h3⟩
   · exact Or.inl h
-  · exact Or.inr ⟨o, ho, by rw [linksAfter_resolve, h1], by rw [linksAfter_resolve, h2], h3⟩
+  · exact Or.inr ⟨o, ho, by rw [linksAfter_resolve _ _ _ hd, h1], by rw [linksAfter_resolve _ _ _ hd, h2], h3⟩
 
 theorem route_of_pathAlias {l : Links} {fs : Fs} {j : Job} (h : PathAlias l j)
     (hs : (fs.get? j.src).isSome) : route l fs j = none := by
@@ -231,19 +257,22 @@ theorem route_of_pathAlias {l : Links} {fs : Fs} {j : Job} (h : PathAlias l j)
       have hc : fs.contains j.src = true := by simpa [Fs.contains] using hs
       simp [isSameFileL, ho, h1, h2, h3, he, hc, Links.sameIno_refl]
 
-theorem jobOps_noOut (fs : Fs) (j : Job) : jobOps fs j.noOut = inplaceOps j.src j.tmp j.body := by
-  simp [jobOps, Job.noOut, isSameFile]
+theorem jobOps_noOut (fs : Fs) (j : Job) :
+    jobOps fs j.noOut = inplaceOps j.early j.src j.target j.tmp j.body := by
+  simp [jobOps, Job.noOut, isSameFile, Job.target]
 
 theorem runJobsL_eq_runJobs (cfg : Cfg) (plan : Plan) {fs0 : Fs} :
     ∀ (js : List Job), (∀ j ∈ js, (fs0.get? j.src).isSome) → (∀ j ∈ js, fs0.get? j.tmp = none) →
-    (∀ j ∈ js, ∀ op ∈ j.body, op.isBody = true) →
+    (∀ j ∈ js, ∀ op ∈ j.body, op.isBody = true) → (∀ j ∈ js, j.dst = none) →
     ∀ (i : Nat) (l : Links) (cur : Fs), cur.names = fs0.names → (∀ j ∈ js, PathAlias l j) →
       runJobsL cfg plan i l cur js = runJobs cfg plan i cur (js.map Job.noOut) := by
   intro js
   induction js with
-  | nil => intro _ _ _ i l cur _ _; rfl
+  | nil => intro _ _ _ _ i l cur _ _; rfl
   | cons j js ih =>
-    intro hsrc htmp hbody i l cur hn hpa
+    intro hsrc htmp hbody hdst i l cur hn hpa
+    have hd : j.dst = none := hdst j List.mem_cons_self
+    have htgt : j.target = j.src := by simp [Job.target, hd]
     have hs : (cur.get? j.src).isSome := by
       rw [isSome_of_names_eq hn]; exact hsrc j List.mem_cons_self
     have h0 : cur.get? j.tmp = none := by
@@ -252,21 +281,23 @@ theorem runJobsL_eq_runJobs (cfg : Cfg) (plan : Plan) {fs0 : Fs} :
       cases hx : cur.get? j.tmp with
       | none => rfl
       | some _ => simp [hx] at this
-    have hopsL : jobOpsL l cur j = inplaceOps j.src j.tmp j.body :=
-      jobOpsL_of_route_none (route_of_pathAlias (hpa j List.mem_cons_self) hs)
-    have hops : jobOps cur j.noOut = inplaceOps j.src j.tmp j.body := jobOps_noOut cur j
-    have P := exec_inplace (fs0 := cur) (src := j.src) (tmp := j.tmp) (cfg := cfg) (plan := plan)
-      j.body (hbody j List.mem_cons_self) h0 hs i
+    have hopsL : jobOpsL l cur j = inplaceOps j.early j.src j.src j.tmp j.body := by
+      rw [jobOpsL_of_route_none (route_of_pathAlias (hpa j List.mem_cons_self) hs), htgt]
+    have hops : jobOps cur j.noOut = inplaceOps j.early j.src j.src j.tmp j.body := by
+      rw [jobOps_noOut cur j, htgt]
+    have P := exec_inplace (fs0 := cur) (src := j.src) (dst := j.src) (tmp := j.tmp) (cfg := cfg) (plan := plan)
+      j.early j.body (hbody j List.mem_cons_self) h0 hs i
     simp only [runJobsL, runJobL, List.map_cons, runJobs, runJob, hopsL, hops]
-    cases hout : (exec cfg plan i { fs := cur } (inplaceOps j.src j.tmp j.body)).1 with
+    cases hout : (exec cfg plan i { fs := cur } (inplaceOps j.early j.src j.src j.tmp j.body)).1 with
     | ok =>
       simp only []
       have hfin := P.ok hout
-      have hn' : (final cur (exec cfg plan i { fs := cur } (inplaceOps j.src j.tmp j.body)).2).names
+      have hn' : (final cur (exec cfg plan i { fs := cur } (inplaceOps j.early j.src j.src j.tmp j.body)).2).names
           = fs0.names := by rw [hfin, Fs.names_set_of_mem hs, hn]
       rw [ih (fun x hx => hsrc x (List.mem_cons_of_mem _ hx)) (fun x hx => htmp x (List.mem_cons_of_mem _ hx))
-        (fun x hx => hbody x (List.mem_cons_of_mem _ hx)) _ (linksAfter l cur j) _ hn'
-        (fun x hx => (hpa x (List.mem_cons_of_mem _ hx)).after cur j)]
+        (fun x hx => hbody x (List.mem_cons_of_mem _ hx)) (fun x hx => hdst x (List.mem_cons_of_mem _ hx))
+        _ (linksAfter l cur j) _ hn'
+        (fun x hx => (hpa x (List.mem_cons_of_mem _ hx)).after cur j hd)]
     | raised _ => rfl
     | killed _ => rfl
 
